@@ -53,6 +53,22 @@ def alphabet(U):
     tasks = range(n)
     seqs = _seqs(n)
     dids = sorted(set(U.ids))
+    if U.alphabet == 'reach':
+        # C10/C18 state supply: just enough to reach every shape and link placement.
+        # tasks 0..n-2 live in/around W0, the last task only in W1.
+        last = n - 1
+        for x in range(last):
+            ops.append(('append', ('W', 0), x))
+            ops.append(('remove', ('W', 0), x))
+            for y in range(last):
+                if x != y:
+                    ops.append(('parent', x, y))
+        ops.append(('append', ('W', 1), last))
+        for x in tasks:
+            for y in tasks:
+                if x != y:
+                    ops.append(('pred.append', x, y))
+        return ops
     if not U.links_only:
         conts = [('T', i) for i in tasks] + [('W', k) for k in range(m)]
         for x in tasks:
